@@ -563,3 +563,7 @@ CHECKS["C20"]["text"] += (
     "through a basin-backed referrer and by a file joined from the file "
     "and a copy are compared with their data; so are those of a hierarchy "
     "child after a refresh.")
+CHECKS["C07"]["text"] += (
+    " Derivations include files that carry the source's rows themselves as "
+    "an internal basin addressed through a mapping (image, mask, two scalar "
+    "features).")
